@@ -253,20 +253,25 @@ class BuiltinsMixin:
                 return ("tuple", m[1])
             if m[0] == "dictview":
                 kind, d = m[1], m[2]
-                keys = H.dict_keys_list(self.st, H.rid(d))
-                return ("dictitems", kind, H.rid(keys), self.st.read("$dval", H.rid(d)),
-                        d.ty.elt(0) if d.ty else None, d.ty.elt(1) if d.ty else None)
+                return self.dict_iter_desc(kind, d)
             if m[0] == "generator":
                 raise Unsupported("iteration over a generator object")
         tn = sv.ty.name if sv.ty else None
         if tn in ("list", "tuple"):
             return ("list", H.rid(sv), sv.ty.elt() if tn == "list" else None)
         if tn in ("dict", "set"):
-            keys = H.dict_keys_list(self.st, H.rid(sv))
-            return ("dictitems", "keys", H.rid(keys), self.st.read("$dval", H.rid(sv)), sv.ty.elt(0), sv.ty.elt(1))
+            return self.dict_iter_desc("keys", sv)
         if tn == "str":
             raise Unsupported("iteration over a string")
         raise Unsupported(f"iteration over {sv.ty}")
+
+    def dict_iter_desc(self, kind, d: SV):
+        """iteration over a dict = iteration over its (immutable) order array as it is now; nothing is allocated"""
+        st = self.st
+        r = H.rid(d)
+        st.assume(H.dict_wf(st, r))
+        return ("dictitems", kind, (st.read("$dord", r), st.read("$dcnt", r)), st.read("$dval", r),
+                d.ty.elt(0) if d.ty else None, d.ty.elt(1) if d.ty else None)
 
     def iter_len(self, d):
         st = self.st
@@ -278,7 +283,7 @@ class BuiltinsMixin:
         if k == "range":
             return z3.If(d[2] > d[1], d[2] - d[1], 0)
         if k == "dictitems":
-            return H.list_len(st, d[2])
+            return d[2][1]
         if k == "enumerate":
             return self.iter_len(d[1])
         if k == "zip":
@@ -305,7 +310,7 @@ class BuiltinsMixin:
         if k == "range":
             return SV(mk_int(d[1] + i), Ty("int"))
         if k == "dictitems":
-            key = H.list_get(st, d[2], i)
+            key = z3.Select(d[2][0], i)
             self.assume_type(key, d[4], fr)
             val = z3.Select(d[3], key)
             self.assume_type(val, d[5], fr)
@@ -337,7 +342,9 @@ class BuiltinsMixin:
         if d[0] == "tuple":
             return H.list_new(st, [self.need_term(e) for e in d[1]], ty=Ty("list"))
         if d[0] == "dictitems" and d[1] in ("keys",):
-            return H.list_copy(st, d[2], ty=Ty("list", (d[4],) if d[4] else ()))
+            out = H.list_new(st, None, d[2][1], ty=Ty("list", (d[4],) if d[4] else ()))
+            st.write("$items", H.rid(out), d[2][0])
+            return out
         if d[0] == "dictitems":
             n = self.iter_len(d)
             out = H.list_new(st, None, n, ty=Ty("list"))
@@ -345,7 +352,7 @@ class BuiltinsMixin:
             if d[1] == "values":
                 j = z3.Int(st.fresh_name("j"))
                 st.assume(z3.ForAll([j], z3.Implies(z3.And(0 <= j, j < n),
-                                                    H.list_get(st, H.rid(out), j) == z3.Select(d[3], H.list_get(st, d[2], j)))))
+                                                    H.list_get(st, H.rid(out), j) == z3.Select(d[3], z3.Select(d[2][0], j)))))
                 out.meta = None
                 out.ty = Ty("list", (d[5],) if d[5] else ())
             return out
